@@ -203,7 +203,6 @@ package act
 //@   modifies emptyFlag
 //@ iface ActorBehavior.HandleMessageName
 //@   modifies emptyFlag
-//@ iface gen.Process.Parent
 //@ iface gen.Process.State
 //@ iface gen.Process.SendResponse
 //@   modifies emptyFlag
@@ -221,7 +220,7 @@ package act
 //@   loop 2 invariant [own_message_while_retrying] message == nil || !withWorker(message)
 //@   loop 2 invariant [mailbox2] mboxDistinct(a.mailbox)
 //@   at call Pop assert [strict_priority] (self == a.mailbox.System ==> emptyFlag(a.mailbox.Urgent)) && (self == a.mailbox.Main ==> emptyFlag(a.mailbox.Urgent) && emptyFlag(a.mailbox.System)) && (self == a.mailbox.Log ==> emptyFlag(a.mailbox.Urgent) && emptyFlag(a.mailbox.System) && emptyFlag(a.mailbox.Main))
-//@   at call Errorf assert [an_exit_signal_ends_the_actor_only_if_untrapped_or_from_the_parent] !a.trap || (typeis(message.Message, gen.MessageExitPID) && message.From == parentPid(a.Process))
+//@   at call Errorf assert [an_exit_signal_ends_the_actor_only_if_untrapped_or_from_the_parent] !caller_a.trap || (typeis(caller_message.Message, gen.MessageExitPID) && caller_message.From == parentPid(caller_a.Process))
 //@   at call HandleCall assert [request_presented_with_its_own_ref] arg0 == message.From && arg1 == message.Ref && arg2 == message.Message
 //@   at call HandleCallName assert [request_presented_with_its_own_ref] arg1 == message.From && arg2 == message.Ref && arg3 == message.Message
 //@   at call HandleCallAlias assert [request_presented_with_its_own_ref] arg1 == message.From && arg2 == message.Ref && arg3 == message.Message
